@@ -1,4 +1,4 @@
-CONSTANTS N = 2  Shapes = {"utf", "utfl", "nonl"}  Statuses = {0}  Pres = {"none"}
+CONSTANTS N = 2  Shapes = {"utf", "nonl"}  Statuses = {0}  Pres = {"none"}
 CONSTANTS AllowTimeout = TRUE  AllowKill = TRUE
 CONSTANTS FallbackShell = FALSE  CloseOnFailure = FALSE  FallbackOnTimeout = TRUE  PreambleInShell = FALSE
 CONSTANTS UtfLen = 2  UtfWidths = {1, 2, 3, 4}  IncrementalDecode = TRUE
